@@ -6,7 +6,7 @@ RULE = (
     "choosers, with per-step snapshots of the features shown to the policy; per finished row: #selected == quota, all "
     "distinct, none forbidden (keep-out / probe), finishing step == quota, and after EVERY step FLP distances / MCP "
     "remaining weights equal the recomputation from the selection so far. Families: generator, mixed quotas per row "
-    "(FLP/MCP). Non-trivial = distinct (instance, selection order)"
+    "(FLP/MCP), hand-built MDPP instances whose action_mask encodes only the keep-out layout (probing ports in the probe map). Non-trivial = distinct (instance, selection order)"
 )
 ASSUMPTIONS = [
     "DPP/MDPP run on synthetic PDN matrices (real chip data unavailable offline); mask/quota/keep-out logic does not depend on them",
@@ -31,6 +31,9 @@ def cases(tier, seed):
         if cfg["env"] in ("flp", "mcp") and cfg["k"] > 1:
             for r in range(reps // 2):
                 out.append(dict(kind="other", cfg=cfg, family="mixed_quota", B=16, s=rnd.randrange(10**6)))
+        if cfg["env"] == "mdpp":
+            for r in range(reps // 2):
+                out.append(dict(kind="other", cfg=cfg, family="handbuilt", B=16, s=rnd.randrange(10**6)))
     return out
 
 
